@@ -94,9 +94,22 @@ out["concat"] = res
 res = []
 for c in req.get("split", []):
     try:
-        a = mk_area(c["area"])
+        parent = mk_area(c["area"])
         k = c["k"]
-        top, bottom = a[slice(0, k), slice(None)], a[slice(k, a.height), slice(None)]
+        if "window" in c:
+            # the parts reach their common edge along different slicing routes: one is cut from the parent,
+            # the other from the already cropped window parent[w0:w1]
+            w0, w1 = c["window"]
+            a = parent[slice(w0, w1), slice(None)]
+            if c["route"] == "chain_bottom":
+                top, bottom = parent[slice(w0, k), slice(None)], a[slice(k - w0, None), slice(None)]
+            elif c["route"] == "chain_top":
+                top, bottom = a[slice(None, k - w0), slice(None)], parent[slice(k, w1), slice(None)]
+            else:
+                top, bottom = parent[slice(w0, k), slice(None)], parent[slice(k, w1), slice(None)]
+        else:
+            a = parent
+            top, bottom = a[slice(0, k), slice(None)], a[slice(k, a.height), slice(None)]
         r = {"root": obs_area(a), "top": obs_area(top), "bottom": obs_area(bottom)}
         for name, (p, q) in (("tb", (top, bottom)), ("bt", (bottom, top))):
             try:
